@@ -26,6 +26,8 @@ RNil == [t |-> "nil"]
 RArr(s) == [t |-> "arr", v |-> s]
 RNilArr == [t |-> "nilarr"]
 RBag(s) == [t |-> "bag", v |-> s]
+RInfoMap(pairs) == [t |-> "infomap", v |-> pairs]
+RMapSet(s) == [t |-> "mapset", v |-> s]
 RAny == [t |-> "any"]
 ROneOf(S) == [t |-> "oneof", v |-> S]
 RIntRange(lo, hi) == [t |-> "intrange", lo |-> lo, hi |-> hi]
@@ -125,6 +127,17 @@ Match(e, o) ==
               /\ o.v[i].t = "arr" /\ Len(o.v[i].v) = 2 /\ o.v[i].v[1].t = "bulk"
               /\ o.v[i].v[2].t = "bulk" \/ (e.intOK /\ o.v[i].v[2].t = "int")
          /\ SameBag(e.v, [i \in 1..Len(o.v) |-> <<o.v[i].v[1].v, o.v[i].v[2].v>>])
+    [] e.t = "infomap" ->
+         (* a flat array name value name value ...; e.v = <<name, pattern>> pairs that must be present (further pairs, which
+            server versions add, are ignored) *)
+         /\ o.t = "arr" /\ Len(o.v) % 2 = 0
+         /\ \A i \in 1..Len(e.v) : \E j \in 1..(Len(o.v) \div 2) :
+              /\ o.v[2 * j - 1].t \in {"bulk", "st"} /\ o.v[2 * j - 1].v = e.v[i][1]
+              /\ Match(e.v[i][2], o.v[2 * j])
+    [] e.t = "mapset" ->
+         (* an array with one element for each pattern of e.v, in any order (the patterns tell their elements apart by a name) *)
+         /\ o.t = "arr" /\ Len(o.v) = Len(e.v)
+         /\ \A i \in 1..Len(e.v) : \E j \in 1..Len(o.v) : Match(e.v[i], o.v[j])
     [] OTHER -> e = o
 
 =============================================================================
